@@ -523,6 +523,33 @@ def search(ctx):
                     out.append({"key": key, "what": r[1], "kind": "c16-probe", **H.case_json(plain, garbage),
                                 "probe": [[pk.hex(), w_] for pk, w_ in probe]})
                 break
+    # a long history of UNFINISHED messages on many streams (first frames only, stray continuation frames, empty frames),
+    # then a complete message from a source never seen before: as on a new decoder
+    if "C16:fast-fresh-probe-depends-on-history" not in seen:
+        for nstreams in (70, 140, 300):
+            hist = []
+            srcs = list(range(1, 250))
+            rng.shuffle(srcs)
+            for k in range(nstreams):
+                pgn = H.FAST[k % len(H.FAST)]
+                src = srcs[k % len(srcs)]
+                dst = 255 if not H.is_pdu1(pgn) else rng.choice([255, 17])
+                fr = H.fast_frames(P.payload(pgn, 0.0), rng.randrange(8))
+                shape = rng.choice(["first", "first", "cont", "empty"])
+                body = fr[0] if shape == "first" else (fr[min(1, len(fr) - 1)] if shape == "cont" else b"")
+                hist.append((H.mk_pkt(pgn, src, dst, 3, (body + bytes([0xFF] * 8))[:8] if body else b"", 8 if body else 0), False))
+            pgn = rng.choice(H.FAST)
+            dst = 255 if not H.is_pdu1(pgn) else 17
+            probe = [(H.mk_pkt(pgn, 251, dst, 3, (f + bytes([0xFF] * 8))[:8], 8), False)
+                     for f in H.fast_frames(P.payload(pgn, 0.0), rng.randrange(8))]
+            r = c16_probe_oracle(plain, hist, probe)
+            if r:
+                key = f"C16:{r[0]}-probe-depends-on-history"
+                if key not in seen:
+                    seen.add(key)
+                    out.append({"key": key, "what": r[1] + f" [after unfinished messages on {nstreams} streams]", "kind": "c16-probe",
+                                **H.case_json(plain, hist), "probe": [[pk.hex(), w_] for pk, w_ in probe]})
+                break
     # the same decoder fed through DIFFERENT entry points: a pre-assembled text line of a fast-packet PGN
     # (Actisense / canboat with already_combined), then the raw frames of another message of that PGN — and the
     # other way round; each must come back as on a new decoder
